@@ -172,7 +172,7 @@ impl Extend<Command> for CommandList {
 /// assert_eq!(escape_argument("foo'bar\""), "foo\\'bar\\\"");
 /// ```
 pub fn escape_argument(argument: &str) -> Cow<'_, str> {
-    let needs_quotes = argument.contains(&[' ', '\t'][..]);
+    let needs_quotes = argument.is_empty() || argument.bytes().any(|b| b <= b' ');
     let escape_count = argument.chars().filter(|c| should_escape(*c)).count();
 
     if escape_count == 0 && !needs_quotes {
